@@ -218,6 +218,17 @@ func honestRanges(rng *rand.Rand, c trieCase, im *impl, quick bool) ([]rangeClai
 			return nil, err
 		}
 	}
+	// twin leaves (same value, keys differ in one bit, alone below their parent): both boundaries
+	// run through one and the same proof-set entry
+	for i := 0; i+1 < n; i++ {
+		x := new(big.Int).Xor(K[i].K, K[i+1].K)
+		if x.BitLen() > 1 && x.BitLen() <= 26 && new(big.Int).And(x, new(big.Int).Sub(x, big.NewInt(1))).Sign() == 0 && K[i].V.Equal(K[i+1].V) {
+			if err := mk("twin-pair", K[i].K, i, i+1); err != nil {
+				return nil, err
+			}
+			break
+		}
+	}
 	// boundaries that are last-bit siblings of another leaf
 	for i := 0; i+1 < n; i++ {
 		if K[i].K.Bit(0) == 0 && new(big.Int).Xor(K[i].K, K[i+1].K).Cmp(big.NewInt(1)) == 0 {
@@ -468,6 +479,7 @@ type rangeWitness struct {
 	Claim    string
 	Proof    string
 	Discrepancy string `json:",omitempty"`
+	Detail      string `json:",omitempty"`
 	WantTrue bool
 	WantMore bool
 	GotMore  bool
@@ -574,12 +586,24 @@ func discrepancy(items []lib.KV, rc rangeClaim) string {
 
 const legacyGapClass = "legacy-range-proof-accepts-omitted-boundary-sibling"
 
+// every violation decided by core/trie.VerifyRangeProof is reported under this one class
+const legacyRangeClass = "legacy:VerifyRangeProof:unsound"
+
 // checkRanges: honest ranges must verify with the right hasMore; every tampered
 // claim that the verifier accepts must be a true claim with the right hasMore.
 // cond names the structural condition of a witness that decides which code path of
 // the verifiers it takes: a trie whose root is a binary node (root key of length 0 in
 // core/trie), a single-leaf trie, else whether the claim's first key is a leaf.
-func cond(c trieCase, rc rangeClaim) string {
+func cond(impl string, c trieCase, rc rangeClaim) string {
+	if impl == "trie2" {
+		for _, e := range rc.P {
+			if e.N.Bin && e.N.L.Equal(&e.N.R) {
+				// two sibling subtrees with the same hash: one proof-set entry (one node object
+				// in core/trie2) stands for both
+				return "identical-sibling-subtrees-in-proof"
+			}
+		}
+	}
 	switch rk := rootKind(c); rk {
 	case "binary-root", "single-leaf-trie", "empty-trie":
 		return rk
@@ -628,28 +652,39 @@ func checkRanges(rp *reporter, idx int, c trieCase, im *impl, rng *rand.Rand) {
 		}
 		// report builds the witness only while the class still wants written-out witnesses
 		report := func(class, op string, t rangeClaim, more bool, e error, isTrue, wMore bool, disc string, brief func() string) {
+			detail := ""
+			if im.name == "legacy" {
+				// core/trie.VerifyRangeProof is recorded as one finding identified by its call site
+				// (the set of shapes it gets wrong varies with the seed); the shape stays visible in
+				// the counters, the brief and the witness.
+				detail = class
+				r.Count("legacy_range_unsound:"+detail, 1)
+				class = legacyRangeClass
+				inner := brief
+				brief = func() string { return "{" + detail + "} " + inner() }
+			}
 			if !rp.want(class) {
 				rp.count(class)
 				return
 			}
 			w := mk(op, t, more, e)
-			w.WantTrue, w.WantMore, w.Discrepancy = isTrue, wMore, disc
+			w.WantTrue, w.WantMore, w.Discrepancy, w.Detail = isTrue, wMore, disc, detail
 			rp.viol(class, idx, brief(), w)
 		}
 		var more bool
 		var e error
-		if rp.guard(idx, im.name+":VerifyRangeProof:honest:"+rc.Shape, func() any { return mk("", rc, false, nil) }, func() { more, e = call(rc) }) {
+		if rp.guard(idx, im.name+":VerifyRangeProof:honest:"+cond(im.name, c, rc), func() any { return mk("", rc, false, nil) }, func() { more, e = call(rc) }) {
 			continue
 		}
 		r.Eval(1)
 		r.Count("range.honest_claims", 1)
 		r.Count("range.honest_shape["+rc.Shape+"]", 1)
 		if e != nil {
-			report(fmt.Sprintf("%s:range-honest-rejected:%s:%s", im.name, rc.Shape, cond(c, rc)), "", rc, more, e, true, wantMore, "", func() string {
+			report(fmt.Sprintf("%s:range-honest-rejected:%s:%s", im.name, rc.Shape, cond(im.name, c, rc)), "", rc, more, e, true, wantMore, "", func() string {
 				return fmt.Sprintf("%s VerifyRangeProof rejects the honest range '%s' (%s): %v", im.name, rc.Shape, rc.String(), e)
 			})
 		} else if more != wantMore {
-			report(fmt.Sprintf("%s:range-true-claim-wrong-hasMore:got-%v:%s", im.name, more, cond(c, rc)), "", rc, more, e, true, wantMore, "", func() string {
+			report(fmt.Sprintf("%s:range-true-claim-wrong-hasMore:got-%v:%s", im.name, more, cond(im.name, c, rc)), "", rc, more, e, true, wantMore, "", func() string {
 				return fmt.Sprintf("%s VerifyRangeProof returns hasMore=%v for the honest range '%s' (%s); leaves to the right exist: %v", im.name, more, rc.Shape, rc.String(), wantMore)
 			})
 		}
@@ -664,7 +699,7 @@ func checkRanges(rp *reporter, idx int, c trieCase, im *impl, rng *rand.Rand) {
 			var more bool
 			var e error
 			fam := opFamily(t.Op)
-			if rp.guard(idx, im.name+":VerifyRangeProof:"+fam, func() any { return mk(t.Op, t.C, false, nil) }, func() { more, e = call(t.C) }) {
+			if rp.guard(idx, im.name+":VerifyRangeProof:tampered:"+cond(im.name, c, t.C), func() any { return mk(t.Op, t.C, false, nil) }, func() { more, e = call(t.C) }) {
 				continue
 			}
 			r.Eval(1)
@@ -678,7 +713,7 @@ func checkRanges(rp *reporter, idx int, c trieCase, im *impl, rng *rand.Rand) {
 				r.Count("range.tampers_accepted_but_truthful", 1)
 				continue
 			}
-			cd := cond(c, t.C)
+			cd := cond(im.name, c, t.C)
 			if tTrue {
 				report(fmt.Sprintf("%s:range-true-claim-wrong-hasMore:got-%v:%s", im.name, more, cd), t.Op, t.C, more, e, true, tMore, "", func() string {
 					return fmt.Sprintf("%s VerifyRangeProof accepts the (still true) claim %s [%s] with hasMore=%v; leaves to the right exist: %v", im.name, t.C.String(), t.Op, more, tMore)
